@@ -154,4 +154,341 @@ theorem delChildrenBody_spec {s : Store} (h : BWF s) (v : Nat) :
         simp; grind
       · simp [hl] <;> grind
 
+/-! ### the children setter: closed form of the `try` body -/
+
+/-- facts about a member `k` of the new children after the deleter has run (`s1`) -/
+theorem member_facts {s s1 : Store} (h : BWF s) (v k : Nat)
+    (hp1 : ∀ x, s1.parent x = if s.parent x = some v then none else s.parent x) :
+    (s1.parent k = none ∧ ∀ x, x ≠ v → clear k (s.slots x) = s.slots x) ∨
+    (∃ q i, s1.parent k = some q ∧ q ≠ v ∧ s.parent k = some q ∧ idx? (s.slots q) k = some i ∧
+      (s.slots q).set i none = clear k (s.slots q) ∧ ∀ x, x ≠ q → clear k (s.slots x) = s.slots x) := by
+  cases hp : s.parent k with
+  | none =>
+    left
+    refine ⟨by simp [hp1, hp], fun x _ => clear_of_not_mem (h.not_mem_of_parent_ne (by simp [hp]))⟩
+  | some q =>
+    by_cases hq : q = v
+    · subst hq
+      left
+      refine ⟨by simp [hp1, hp], fun x hx => clear_of_not_mem (h.not_mem_of_parent_ne ?_)⟩
+      simp [hp]; exact fun e => hx e.symm
+    · right
+      obtain ⟨i, hi⟩ := h.idx_of_parent hp
+      refine ⟨q, i, by simp [hp1, hp, hq], hq, rfl, hi, set_idx_none hi (h.distinct q k),
+        fun x hx => clear_of_not_mem (h.not_mem_of_parent_ne ?_)⟩
+      simp [hp]; exact fun e => hx e.symm
+
+theorem childrenTry_spec {s : Store} (h : BWF s) (f : Fault) (v : Nat) (c1 c2 : Option Nat)
+    (hd : ∀ k, c1 = some k → c2 ≠ some k) :
+    ∃ t, childrenTry f s v [c1, c2] = (t, decide (f = Fault.post)) ∧ t.n = s.n ∧
+      (∀ x, t.parent x = if c1 = some x ∨ c2 = some x then some v
+                          else if s.parent x = some v then none else s.parent x) ∧
+      (∀ x, t.slots x = if x = v then [c1, c2] else clearO c2 (clearO c1 (s.slots x))) := by
+  obtain ⟨s1, hdel, hn1, hp1, hs1⟩ := delChildrenBody_spec h v
+  cases c1 with
+  | none =>
+    cases c2 with
+    | none =>
+      refine ⟨setSlots s1 v [none, none], by simp [childrenTry, hdel, assignLoop], by simp [hn1],
+        fun x => by simp [hp1], fun x => by simp [hs1] <;> grind⟩
+    | some k2 =>
+      rcases member_facts h v k2 hp1 with ⟨hk, hcl⟩ | ⟨q, i, hk, hqv, hpk, hi, hset, hcl⟩
+      · refine ⟨setPar (setSlots s1 v [none, some k2]) k2 (some v),
+          by simp [childrenTry, hdel, assignLoop, stealOne, hk], by simp [hn1], fun x => ?_, fun x => ?_⟩
+        · simp [hp1]; grind
+        · simp [hs1]; grind
+      · refine ⟨setPar (setSlotAt (setSlots s1 v [none, some k2]) q i none) k2 (some v),
+          by simp [childrenTry, hdel, assignLoop, stealOne, hk, hqv, hs1, hi], by simp [hn1], fun x => ?_, fun x => ?_⟩
+        · simp [hp1]; grind
+        · simp [hs1, hqv]; grind
+  | some k1 =>
+    rcases member_facts h v k1 hp1 with ⟨hk1, hcl1⟩ | ⟨q1, i1, hk1, hqv1, hpk1, hi1, hset1, hcl1⟩
+    · cases c2 with
+      | none =>
+        refine ⟨setPar (setSlots s1 v [some k1, none]) k1 (some v),
+          by simp [childrenTry, hdel, assignLoop, stealOne, hk1], by simp [hn1], fun x => ?_, fun x => ?_⟩
+        · simp [hp1] <;> grind
+        · simp [hs1] <;> grind
+      | some k2 =>
+        have hne : k2 ≠ k1 := fun e => hd k1 rfl (by rw [e])
+        have hcomm := fun x => clear_comm k2 k1 (s.slots x)
+        rcases member_facts h v k2 hp1 with ⟨hk2, hcl2⟩ | ⟨q2, i2, hk2, hqv2, hpk2, hi2, hset2, hcl2⟩
+        · refine ⟨setPar (setPar (setSlots s1 v [some k1, some k2]) k1 (some v)) k2 (some v),
+            by simp [childrenTry, hdel, assignLoop, stealOne, hk1, hk2, hne], by simp [hn1],
+            fun x => ?_, fun x => ?_⟩
+          · simp [hp1] <;> grind
+          · simp [hs1] <;> grind
+        · refine ⟨setPar (setSlotAt (setPar (setSlots s1 v [some k1, some k2]) k1 (some v)) q2 i2 none) k2 (some v),
+            by simp [childrenTry, hdel, assignLoop, stealOne, hk1, hk2, hne, hqv2, hs1, hi2], by simp [hn1],
+            fun x => ?_, fun x => ?_⟩
+          · simp [hp1] <;> grind
+          · simp [hs1, hqv2] <;> grind
+    · cases c2 with
+      | none =>
+        refine ⟨setPar (setSlotAt (setSlots s1 v [some k1, none]) q1 i1 none) k1 (some v),
+          by simp [childrenTry, hdel, assignLoop, stealOne, hk1, hqv1, hs1, hi1], by simp [hn1],
+          fun x => ?_, fun x => ?_⟩
+        · simp [hp1] <;> grind
+        · simp [hs1, hqv1] <;> grind
+      | some k2 =>
+        have hne : k2 ≠ k1 := fun e => hd k1 rfl (by rw [e])
+        have hcomm := fun x => clear_comm k2 k1 (s.slots x)
+        rcases member_facts h v k2 hp1 with ⟨hk2, hcl2⟩ | ⟨q2, i2, hk2, hqv2, hpk2, hi2, hset2, hcl2⟩
+        · refine ⟨setPar (setPar (setSlotAt (setSlots s1 v [some k1, some k2]) q1 i1 none) k1 (some v)) k2 (some v),
+            by simp [childrenTry, hdel, assignLoop, stealOne, hk1, hk2, hne, hqv1, hs1, hi1], by simp [hn1],
+            fun x => ?_, fun x => ?_⟩
+          · simp [hp1] <;> grind
+          · simp [hs1, hqv1] <;> grind
+        · by_cases hqq : q2 = q1
+          · subst hqq
+            have hi2' : idx? (clear k1 (s.slots q2)) k2 = some i2 := by rw [idx?_clear_ne _ hne]; exact hi2
+            have hset2' : (clear k1 (s.slots q2)).set i2 none = clear k2 (clear k1 (s.slots q2)) := by
+              rw [clear_set_none, hset2, clear_comm]
+            refine ⟨setPar (setSlotAt (setPar (setSlotAt (setSlots s1 v [some k1, some k2]) q2 i1 none) k1 (some v)) q2 i2 none) k2 (some v),
+              by simp [childrenTry, hdel, assignLoop, stealOne, hk1, hk2, hne, hqv1, hs1, hi1, hset1, hi2'], by simp [hn1],
+              fun x => ?_, fun x => ?_⟩
+            · simp [hp1] <;> grind
+            · simp [hs1, hqv1, hset1, hset2'] <;> grind
+          · refine ⟨setPar (setSlotAt (setPar (setSlotAt (setSlots s1 v [some k1, some k2]) q1 i1 none) k1 (some v)) q2 i2 none) k2 (some v),
+              by simp [childrenTry, hdel, assignLoop, stealOne, hk1, hk2, hne, hqv1, hqv2, hs1, hi1, hi2, hqq], by simp [hn1],
+              fun x => ?_, fun x => ?_⟩
+            · simp [hp1] <;> grind
+            · simp [hs1, hqv1, hqv2, hqq] <;> grind
+
+/-! ### the children setter: the roll-back code -/
+
+@[simp] theorem restoreStolen_n (t : Store) (l) : (restoreStolen t l).n = t.n := by
+  induction l generalizing t with
+  | nil => rfl
+  | cons e l ih => obtain ⟨c, i, p⟩ := e; simp [restoreStolen, ih]
+
+@[simp] theorem restoreOrphans_n (t : Store) (l) : (restoreOrphans t l).n = t.n := by
+  induction l generalizing t with
+  | nil => rfl
+  | cons e l ih => simp [restoreOrphans, ih]
+
+@[simp] theorem restoreOrphans_slots (t : Store) (l) : (restoreOrphans t l).slots = t.slots := by
+  induction l generalizing t with
+  | nil => rfl
+  | cons e l ih => simp [restoreOrphans, ih]
+
+theorem restoreOrphans_parent (t : Store) (l) (x : Nat) :
+    (restoreOrphans t l).parent x = if x ∈ l then none else t.parent x := by
+  induction l generalizing t with
+  | nil => simp [restoreOrphans]
+  | cons e l ih =>
+    simp only [restoreOrphans, ih, setPar_parent, List.mem_cons]
+    grind
+
+@[simp] theorem reparentOld_n (v : Nat) (t : Store) (l) : (reparentOld v t l).n = t.n := by
+  induction l generalizing t with
+  | nil => rfl
+  | cons e l ih => cases e <;> simp [reparentOld, ih]
+
+@[simp] theorem reparentOld_slots (v : Nat) (t : Store) (l) : (reparentOld v t l).slots = t.slots := by
+  induction l generalizing t with
+  | nil => rfl
+  | cons e l ih => cases e <;> simp [reparentOld, ih]
+
+theorem reparentOld_parent (v : Nat) (t : Store) (l) (x : Nat) :
+    (reparentOld v t l).parent x = if some x ∈ l then some v else t.parent x := by
+  induction l generalizing t with
+  | nil => simp [reparentOld]
+  | cons e l ih =>
+    cases e with
+    | none => simp [reparentOld, ih]
+    | some c =>
+      simp only [reparentOld, ih, setPar_parent, List.mem_cons, Option.some.injEq]
+      grind
+
+/-- facts about a member `k` of the new children in the snapshot state -/
+theorem snap_facts {s : Store} (h : BWF s) (k : Nat) :
+    (s.parent k = none ∧ ∀ x, clear k (s.slots x) = s.slots x) ∨
+    (∃ p i, s.parent k = some p ∧ idx? (s.slots p) k = some i ∧
+      (clear k (s.slots p)).set i (some k) = s.slots p ∧ ∀ x, x ≠ p → clear k (s.slots x) = s.slots x) := by
+  cases hp : s.parent k with
+  | none =>
+    left
+    exact ⟨rfl, fun x => clear_of_not_mem (h.not_mem_of_parent_ne (by simp [hp]))⟩
+  | some p =>
+    right
+    obtain ⟨i, hi⟩ := h.idx_of_parent hp
+    refine ⟨p, i, rfl, hi, set_idx_clear hi (h.distinct p k),
+      fun x hx => clear_of_not_mem (h.not_mem_of_parent_ne ?_)⟩
+    simp [hp]; exact fun e => hx e.symm
+
+theorem childrenRollback_spec {s t : Store} (h : BWF s) (v : Nat) (c1 c2 : Option Nat)
+    (hd : ∀ k, c1 = some k → c2 ≠ some k) (hn : t.n = s.n)
+    (hpt : ∀ x, t.parent x = if c1 = some x ∨ c2 = some x then some v
+                          else if s.parent x = some v then none else s.parent x)
+    (hst : ∀ x, t.slots x = if x = v then [c1, c2] else clearO c2 (clearO c1 (s.slots x))) :
+    ∃ stolen, snapStolen s [c1, c2] [] = some stolen ∧
+      childrenRollback t v stolen (snapOrphans s [c1, c2]) (s.slots v) = s := by
+  have hdown := fun x => h.down v x
+  have hup := fun x => h.up x v
+  cases c1 with
+  | none =>
+    cases c2 with
+    | none =>
+      refine ⟨[], by simp [snapStolen], Store.ext' (by simp [childrenRollback, hn]) (fun x => ?_) (fun x => ?_)⟩
+      · simp [childrenRollback, reparentOld_parent, restoreOrphans_parent, restoreStolen, snapOrphans, hpt] <;> grind
+      · simp [childrenRollback, restoreStolen, hst] <;> grind
+    | some k2 =>
+      rcases snap_facts h k2 with ⟨hk2, hcl2⟩ | ⟨p2, i2, hk2, hi2, hb2, hcl2⟩
+      · refine ⟨[], by simp [snapStolen, hk2], Store.ext' (by simp [childrenRollback, hn]) (fun x => ?_) (fun x => ?_)⟩
+        · simp [childrenRollback, reparentOld_parent, restoreOrphans_parent, restoreStolen, snapOrphans, hpt, hk2] <;> grind
+        · simp [childrenRollback, restoreStolen, hst] <;> grind
+      · refine ⟨[(k2, i2, p2)], by simp [snapStolen, hk2, hi2, dictSet], Store.ext' (by simp [childrenRollback, hn]) (fun x => ?_) (fun x => ?_)⟩
+        · simp [childrenRollback, reparentOld_parent, restoreOrphans_parent, restoreStolen, snapOrphans, hpt, hk2] <;> grind
+        · simp [childrenRollback, restoreStolen, hst] <;> grind
+  | some k1 =>
+    rcases snap_facts h k1 with ⟨hk1, hcl1⟩ | ⟨p1, i1, hk1, hi1, hb1, hcl1⟩
+    · cases c2 with
+      | none =>
+        refine ⟨[], by simp [snapStolen, hk1], Store.ext' (by simp [childrenRollback, hn]) (fun x => ?_) (fun x => ?_)⟩
+        · simp [childrenRollback, reparentOld_parent, restoreOrphans_parent, restoreStolen, snapOrphans, hpt, hk1] <;> grind
+        · simp [childrenRollback, restoreStolen, hst] <;> grind
+      | some k2 =>
+        have hne : k2 ≠ k1 := fun e => hd k1 rfl (by rw [e])
+        have hcomm := fun x => clear_comm k2 k1 (s.slots x)
+        rcases snap_facts h k2 with ⟨hk2, hcl2⟩ | ⟨p2, i2, hk2, hi2, hb2, hcl2⟩
+        · refine ⟨[], by simp [snapStolen, hk1, hk2], Store.ext' (by simp [childrenRollback, hn]) (fun x => ?_) (fun x => ?_)⟩
+          · simp [childrenRollback, reparentOld_parent, restoreOrphans_parent, restoreStolen, snapOrphans, hpt, hk1, hk2] <;> grind
+          · simp [childrenRollback, restoreStolen, hst] <;> grind
+        · refine ⟨[(k2, i2, p2)], by simp [snapStolen, hk1, hk2, hi2, dictSet], Store.ext' (by simp [childrenRollback, hn]) (fun x => ?_) (fun x => ?_)⟩
+          · simp [childrenRollback, reparentOld_parent, restoreOrphans_parent, restoreStolen, snapOrphans, hpt, hk1, hk2] <;> grind
+          · simp [childrenRollback, restoreStolen, hst] <;> grind
+    · cases c2 with
+      | none =>
+        refine ⟨[(k1, i1, p1)], by simp [snapStolen, hk1, hi1, dictSet], Store.ext' (by simp [childrenRollback, hn]) (fun x => ?_) (fun x => ?_)⟩
+        · simp [childrenRollback, reparentOld_parent, restoreOrphans_parent, restoreStolen, snapOrphans, hpt, hk1] <;> grind
+        · simp [childrenRollback, restoreStolen, hst] <;> grind
+      | some k2 =>
+        have hne : k2 ≠ k1 := fun e => hd k1 rfl (by rw [e])
+        have hne' : k1 ≠ k2 := fun e => hne e.symm
+        have hcomm := fun x => clear_comm k2 k1 (s.slots x)
+        have hsw := fun (M : List (Option Nat)) => clear_set_some_ne (k := k2) (c := k1) M i1 hne'
+        rcases snap_facts h k2 with ⟨hk2, hcl2⟩ | ⟨p2, i2, hk2, hi2, hb2, hcl2⟩
+        · refine ⟨[(k1, i1, p1)], by simp [snapStolen, hk1, hk2, hi1, dictSet], Store.ext' (by simp [childrenRollback, hn]) (fun x => ?_) (fun x => ?_)⟩
+          · simp [childrenRollback, reparentOld_parent, restoreOrphans_parent, restoreStolen, snapOrphans, hpt, hk1, hk2] <;> grind
+          · simp [childrenRollback, restoreStolen, hst] <;> grind
+        · refine ⟨[(k1, i1, p1), (k2, i2, p2)], by simp [snapStolen, hk1, hk2, hi1, hi2, dictSet, hne'], Store.ext' (by simp [childrenRollback, hn]) (fun x => ?_) (fun x => ?_)⟩
+          · simp [childrenRollback, reparentOld_parent, restoreOrphans_parent, restoreStolen, snapOrphans, hpt, hk1, hk2] <;> grind
+          · simp [childrenRollback, restoreStolen, hst] <;> grind
+
+
+/-! ### C02, children setter -/
+
+theorem normChildren_some {l new : List (Option Nat)} (h : normChildren l = some new) :
+    ∃ c1 c2, new = [c1, c2] := by
+  unfold normChildren at h
+  by_cases h0 : l.length = 0
+  · simp [h0] at h; exact ⟨none, none, h.symm⟩
+  · simp only [h0, if_false] at h
+    by_cases h2 : l.length = 2
+    · simp [h2] at h; subst h; exact two_of_len h2
+    · simp [h2] at h
+
+/-- what `__check_children_loop` establishes for `[c1, c2]` -/
+structure ValidNew (s : Store) (v : Nat) (c1 c2 : Option Nat) : Prop where
+  range : ∀ k, c1 = some k ∨ c2 = some k → k < s.n
+  ne_self : ∀ k, c1 = some k ∨ c2 = some k → k ≠ v
+  not_anc : ∀ k, c1 = some k ∨ c2 = some k → k ∉ anc s s.n v
+  distinct : ∀ k, c1 = some k → c2 ≠ some k
+
+theorem childrenLoopBad_two {s : Store} {v : Nat} {c1 c2 : Option Nat} :
+    childrenLoopBad s v [c1, c2] [] = false ↔ ValidNew s v c1 c2 := by
+  constructor
+  · intro hb
+    cases c1 <;> cases c2 <;> simp [childrenLoopBad] at hb <;>
+      constructor <;> intro k <;> simp <;> grind
+  · intro hv
+    cases c1 with
+    | none =>
+      cases c2 with
+      | none => simp [childrenLoopBad]
+      | some b =>
+        have r2 := hv.range b (Or.inr rfl)
+        have s2 := hv.ne_self b (Or.inr rfl)
+        have a2 := hv.not_anc b (Or.inr rfl)
+        simp [childrenLoopBad]
+        exact ⟨r2, s2, a2⟩
+    | some a =>
+      have r1 := hv.range a (Or.inl rfl)
+      have s1 := hv.ne_self a (Or.inl rfl)
+      have a1 := hv.not_anc a (Or.inl rfl)
+      cases c2 with
+      | none =>
+        simp [childrenLoopBad]
+        exact ⟨r1, s1, a1⟩
+      | some b =>
+        have r2 := hv.range b (Or.inr rfl)
+        have s2 := hv.ne_self b (Or.inr rfl)
+        have a2 := hv.not_anc b (Or.inr rfl)
+        have d := hv.distinct a rfl
+        simp [childrenLoopBad]
+        refine ⟨r1, s1, a1, r2, s2, a2, ?_⟩
+        intro e; exact d (by rw [e])
+
+/-- **C02 (BinaryNode, children setter).** Whatever makes `v.children = l` raise with the checks
+on — wrong length, a member that is not a node, self, an ancestor, a repeated member, the pre-hook,
+the post-hook — the store afterwards is the store before. -/
+theorem setChildren_rej_id {s : Store} (h : BWF s) (f : Fault) (v : Nat) (l : List (Option Nat))
+    (hr : (setChildren true f s v l).2 = .rej) : (setChildren true f s v l).1 = s := by
+  unfold setChildren at hr ⊢
+  cases hnorm : normChildren l with
+  | none => rfl
+  | some new =>
+    obtain ⟨c1, c2, rfl⟩ := normChildren_some hnorm
+    by_cases hb : childrenLoopBad s v [c1, c2] [] = true
+    · simp [hb]
+    · have hv := childrenLoopBad_two.1 (by simpa using hb)
+      obtain ⟨t, ht, hn, hpt, hst⟩ := childrenTry_spec h f v c1 c2 hv.distinct
+      obtain ⟨stolen, hsn, hroll⟩ := childrenRollback_spec h v c1 c2 hv.distinct hn hpt hst
+      simp only [hnorm, hb, hsn, ht] at hr ⊢
+      by_cases hpre : f = Fault.pre
+      · simp [hpre]
+      · by_cases hpost : f = Fault.post
+        · simp [hpost, hroll]
+        · simp [hpre, hpost] at hr
+
+
+/-- `v.left = x` is `v.children = [x, v.right]` -/
+theorem setLeft_rej_id {s : Store} (h : BWF s) (f : Fault) (v : Nat) (x : Option Nat)
+    (hr : (setLeft true f s v x).2 = .rej) : (setLeft true f s v x).1 = s := by
+  unfold setLeft at hr ⊢
+  cases hs : slotAt? s v 1 with
+  | none => rfl
+  | some r => simp only [hs] at hr ⊢; exact setChildren_rej_id h f v _ hr
+
+theorem setRight_rej_id {s : Store} (h : BWF s) (f : Fault) (v : Nat) (x : Option Nat)
+    (hr : (setRight true f s v x).2 = .rej) : (setRight true f s v x).1 = s := by
+  unfold setRight at hr ⊢
+  cases hs : slotAt? s v 0 with
+  | none => rfl
+  | some r => simp only [hs] at hr ⊢; exact setChildren_rej_id h f v _ hr
+
+theorem delChildren_ok {s : Store} (h : BWF s) (v : Nat) : (delChildren s v).2 = .ok := by
+  obtain ⟨s1, hd, _⟩ := delChildrenBody_spec h v
+  simp [delChildren, hd]
+
+/-- **C02 (BinaryNode).** Every rejected call — any operation, any argument, any fault — leaves the
+whole store unchanged (checks on). -/
+theorem step_rej_id {s : Store} (h : BWF s) (op : Op) (hr : (step true s op).2 = .rej) :
+    (step true s op).1 = s := by
+  unfold step at hr ⊢
+  by_cases hsub : s.n ≤ op.subject
+  · simp [hsub]
+  · simp only [hsub, if_false] at hr ⊢
+    cases op with
+    | parent v np f => exact setParent_rej_id h true f v np hr
+    | children v l f =>
+      cases l with
+      | none => rfl
+      | some l => exact setChildren_rej_id h f v l hr
+    | left v x f => exact setLeft_rej_id h f v x hr
+    | right v x f => exact setRight_rej_id h f v x hr
+    | del v => simp [delChildren_ok h v] at hr
+    | sort v sw => simp at hr
+
 end BinStore
